@@ -132,7 +132,7 @@ def main(argv=None):
                 print(line)
         if ok:
             print(f"REPRODUCED property={prop} clause={v['clause']} class={v['class']} op={v['op']} "
-                  f"digest={'same' if same_digest else 'DIFFERENT'}")
+                  f"digest={'same' if same_digest else 'n/a (address-dependent, heap state ' + str(res.get('address_attempt')) + ')' if same_digest is None else 'DIFFERENT'}")
             print(f"  detail: {v['detail']}")
             print(f"VIOLATION property={prop} replay={a.replay}")
             return 1
